@@ -628,11 +628,14 @@ def tampered_requests(r: Any, bundles: list[dict[str, Any]], members: list[tuple
                 out.append(("misattributed-to-other-key", b, ki, c))
             elsewhere = [b2 for b2 in range(nb) if b2 != b and ki in bundles[b2]["members"]]
             if elsewhere:
-                # the same key's (valid) signature from ANOTHER bundle, earlier one preferred: other times, possibly another key set
-                b2 = max([x for x in elsewhere if x < b], default=elsewhere[0])
-                c, sg = variant()
-                c[b]["sigs"][si] = dict(next(x for x in bundles[b2]["sigs"] if x["id"] == ident))
-                out.append((f"signature-from-bundle-{'earlier' if b2 < b else 'later'}", b, ki, c))
+                # the same key's (valid) signature from ANOTHER bundle (the nearest earlier one, and one with another key set): other times
+                # (the property lets a signature speak for itself — "with the signature's own stated fields" — so over the SAME key set
+                # it still proves possession: a control that must be accepted; over another key set it must be refused)
+                for b2 in {max([x for x in elsewhere if x < b], default=elsewhere[0]), next((x for x in elsewhere if bundles[x]["members"] != bundles[b]["members"]), elsewhere[0])}:
+                    c, sg = variant()
+                    c[b]["sigs"][si] = dict(next(x for x in bundles[b2]["sigs"] if x["id"] == ident))
+                    same = sorted(bundles[b2]["members"]) == sorted(bundles[b]["members"])
+                    out.append((f"{'control-' if same else ''}signature-from-{'earlier' if b2 < b else 'later'}-bundle-with-{'the-same' if same else 'another'}-key-set", b, ki, c))
             other = next((j for j in range(len(members)) if j != ki and members[j][1] == members[ki][1]), None)
             if other is not None:
                 # made by ANOTHER key's private half, carrying this key's identifier and tag
@@ -695,7 +698,7 @@ def roll_stream(r: Any, tier: str, pool: dict[str, list[tuple[Any, int]]]) -> li
                 earlier = any(ki in base[b2]["members"] for b2 in range(b))
                 later = any(ki in base[b2]["members"] for b2 in range(b + 1, nb))
                 facts = {"nb": nb, "bundle": b, "key": ki, "same_key_signed_correctly_earlier": earlier, "same_key_signs_later": later, "bundle_holds_other_keys_too": len(base[b]["keys"]) >= 2}
-                out.append((f"roll:{kind}:b{b}of{nb}:k{ki}|{plan}", strip_request(c), False, facts))
+                out.append((f"roll:{kind}:b{b}of{nb}:k{ki}|{plan}", strip_request(c), kind.startswith("control-"), facts))
     return out
 
 
@@ -707,7 +710,7 @@ def pair_stream(r: Any, tier: str, pool: dict[str, list[tuple[Any, int]]]) -> li
     import keys as fx
 
     out = []
-    rounds = 1 if tier == "quick" else 4
+    rounds = 2 if tier == "quick" else 6
     for rd in range(rounds):
         layout = [[0, 1], [1], [1, 2]] if rd % 2 == 0 else [[0, 1], [0, 1]]
         ks = r.sample(pool["rsa1024"], 6)
